@@ -181,6 +181,12 @@ class C09(XsProp):
                         # not representable: wrapped value or overflow error, nothing else
                         if not (res == 'EOverflow' or (res == 'ok' and stack == ['I' + hx(wrap(exact))])):
                             bad = 'unrepresentable result must wrap or overflow, got %s %s' % (res, stack)
+            elif w in ('min', 'max') and len(pa) == 2 and all(cells.strip(p)[0] == 'R' for p in pa) and \
+                    sum(cells.strip(p)[1] == 'nan' for p in pa) == 1:
+                # IEEE minNum / maxNum: a single NaN operand is ignored
+                other = [cells.strip(p) for p in pa if cells.strip(p)[1] != 'nan'][0]
+                if res != 'ok' or stack != ['R' + other[1]]:
+                    bad = '%s with one NaN operand must return the other operand %s, got %s %s' % (w, 'R' + other[1], res, stack)
             elif all(cells.strip(p)[0] == 'R' for p in pa) and all(cells.strip(p)[1] != 'nan' for p in pa):
                 # reals: the host's binary64 arithmetic (Python floats) as an independent oracle for the failing-input search
                 import math
